@@ -15,6 +15,7 @@ import ast
 from typing import Any, Dict, List, Optional, Tuple
 
 from .. import astutil as A
+from .. import guards as G
 from .. import wire
 from ..model import AnalysisError, CArray, CScalar, CStructRef, ClassRef, EnumMember, Unknown, dotted, src
 
@@ -199,8 +200,18 @@ def optional_codec(ctx, c) -> Optional[str]:
     # if p is None: self.D = A; self.V = 0 / else: self.D = B; self.V = p
     enc = {}
     for st in init.body:
-        if isinstance(st, ast.If) and isinstance(st.test, ast.Compare) and A.norm(st.test) in (f"{p}isNone", f"{p}isnotNone"):
-            none_branch, val_branch = (st.body, st.orelse) if A.norm(st.test) == f"{p}isNone" else (st.orelse, st.body)
+        if isinstance(st, ast.If) and st.orelse and A.contains_name(st.test, p):
+            # which branch encodes "undefined" is decided by evaluating the test for None; then the test must separate None from every integer object
+            probes = [("None", None), ("0", 0), ("1", 1), ("-7", -7), ("True", True), ("2**31-1", 2 ** 31 - 1), ("an integer object that is not a builtin int (numpy.int64)", G.Sym("int64", ("integer", "Integral")))]
+            try:
+                taken = {label: bool(G.peval(st.test, {p: v})) for label, v in probes}
+            except Unknown as ex_:
+                ctx.error("C15.H", f"{c.name}.__init__: discriminating test `{src(st.test)}` cannot be evaluated ({ex_})")
+                return None
+            none_branch, val_branch = (st.body, st.orelse) if taken["None"] else (st.orelse, st.body)
+            wrong = [label for label, _ in probes[1:] if taken[label] == taken["None"]]
+            ctx.check("C15.H", f"{c.name}.__init__:undefined-exactly-when-None", not wrong,
+                      f"{c.name}.__init__ decides between 'undefined' and 'integer' with `{src(st.test)}`, which sends {wrong} to the undefined encoding: a defined array entry is decoded as None", c.loc(st))
             for name, br in (("none", none_branch), ("val", val_branch)):
                 d = {}
                 for s2 in br:
@@ -518,6 +529,12 @@ def run(ctx):
 M = "netqasm/backend/messages.py"
 E = "netqasm/lang/encoding.py"
 SEEDS = [
+    dict(id="c15-optionalint-isinstance", file="netqasm/lang/encoding.py", expect="C15.H", construct="undefined-exactly-when-None",
+         old="        if value is None:\n            self.type = self._NULL_TYPE\n            self._value = 0\n        else:\n            self.type = self._INT_TYPE\n            self._value = value",
+         new="        if isinstance(value, int):\n            self.type = self._INT_TYPE\n            self._value = value\n        else:\n            self.type = self._NULL_TYPE\n            self._value = 0"),
+    dict(id="c15-optionalint-truthiness", file="netqasm/lang/encoding.py", expect="C15.H", construct="undefined-exactly-when-None",
+         old="        if value is None:\n            self.type = self._NULL_TYPE", new="        if not value:\n            self.type = self._NULL_TYPE"),
+
     dict(id="c15-shadow-again", file=E, expect="C15.H", construct="OptionalInt",
          edits=[(E, '("_value", INTEGER)', '("value", INTEGER)'), (E, "self._value", "self.value")], count="all"),
     dict(id="c15-reader-raw-field", file=M, expect="C15.V", construct="type-aware-accessor", old="values = list(v.value for v in array_type.from_buffer_copy(raw))", new="values = list(v._value for v in array_type.from_buffer_copy(raw))"),
@@ -534,4 +551,8 @@ SEEDS = [
     dict(id="c15-optional-mirror", file=E, expect="C15.H", construct="mirror", old="        if self.type == self._NULL_TYPE:\n            return None", new="        if self.type == self._INT_TYPE and self._value == 0:\n            return None"),
     dict(id="c15-disc-same", file=E, expect="C15.H", construct="OptionalInt", old="    _INT_TYPE = 0x01", new="    _INT_TYPE = 0x00"),
 ]
-BENIGN = []
+BENIGN = [
+    dict(id="c15-benign-optionalint-branches-swapped", file="netqasm/lang/encoding.py",
+         old="        if value is None:\n            self.type = self._NULL_TYPE\n            self._value = 0\n        else:\n            self.type = self._INT_TYPE\n            self._value = value",
+         new="        if value is not None:\n            self.type = self._INT_TYPE\n            self._value = value\n        else:\n            self.type = self._NULL_TYPE\n            self._value = 0"),
+]
